@@ -12,6 +12,7 @@ with λ₀ = 0 and arbitrary c, a, α, β (`cog6_energy`).
 import EPV.Gen.Cog6D
 import EPV.Spec.Euler1D
 import EPV.Lemmas.Euler1D
+import EPV.Lemmas.HydroRobust
 import EPV.Tactics
 
 set_option linter.all false
@@ -25,25 +26,22 @@ theorem cog6_leaves : Cog6.okLeaves = [0] := rfl
 
 theorem cog6_mass (p : Cog6.P) (r t : ℝ) (hr : 0 < r) (hx : 0 < p.tau ^ 2 - t ^ 2) :
     massRes (Cog6.L0.density p) (Cog6.L0.velocity p) (p.geometry - 1) r t = 0 := by
-  have hp := Real.rpow_pos_of_pos hx ((((p.geometry - (1 : ℝ)) + (1 : ℝ)) + p.b) / (2 : ℝ))
   unfold massRes dr dt
-  rw [(Cog6.L0.density_hasDerivAt_t p r t hx hp.ne').deriv, (Cog6.L0.density_hasDerivAt_r p r t hr).deriv,
-    (Cog6.L0.velocity_hasDerivAt_r p r t).deriv]
+  epv_hydro_rw_derivs [Cog6.L0.density_hasDerivAt_t p r t, Cog6.L0.density_hasDerivAt_r p r t,
+    Cog6.L0.velocity_hasDerivAt_r p r t]
   simp only [epv_deriv, epv_leaf]
-  have hx' := hx.ne'
+  epv_hydro_rpow_pos
   field_simp
   ring
 
 theorem cog6_momentum (p : Cog6.P) (r t : ℝ) (hr : 0 < r) (hx : 0 < p.tau ^ 2 - t ^ 2)
     (hΓ : p.Gamma ≠ 0) (hb : p.b + 2 ≠ 0) (hρ : p.rho0 ≠ 0) :
     momResT (Cog6.L0.density p) (Cog6.L0.velocity p) (Cog6.L0.temperature p) p.Gamma r t = 0 := by
-  have hp := Real.rpow_pos_of_pos hx ((((p.geometry - (1 : ℝ)) + (1 : ℝ)) + p.b) / (2 : ℝ))
-  have h1 := Real.rpow_pos_of_pos hr p.b
   unfold momResT dr dt
-  rw [(Cog6.L0.velocity_hasDerivAt_t p r t hx.ne').deriv, (Cog6.L0.velocity_hasDerivAt_r p r t).deriv,
-    (Cog6.L0.density_hasDerivAt_r p r t hr).deriv, (Cog6.L0.temperature_hasDerivAt_r p r t).deriv]
+  epv_hydro_rw_derivs [Cog6.L0.velocity_hasDerivAt_t p r t, Cog6.L0.velocity_hasDerivAt_r p r t,
+    Cog6.L0.density_hasDerivAt_r p r t, Cog6.L0.temperature_hasDerivAt_r p r t]
   simp only [epv_deriv, epv_leaf]
-  have hx' := hx.ne'
+  epv_hydro_rpow_pos
   field_simp
   ring
 
@@ -52,14 +50,14 @@ theorem cog6_energy_hydro (p : Cog6.P) (r t : ℝ) (hr : 0 < r) (hx : 0 < p.tau 
     energyHydroT (Cog6.L0.velocity p) (Cog6.L0.temperature p) p.Gamma
       (((p.geometry - 1) + 3) / ((p.geometry - 1) + 1)) (p.geometry - 1) r t = 0 := by
   unfold energyHydroT dr dt
-  rw [(Cog6.L0.temperature_hasDerivAt_t p r t hx.ne').deriv, (Cog6.L0.velocity_hasDerivAt_r p r t).deriv,
-    (Cog6.L0.temperature_hasDerivAt_r p r t).deriv]
+  epv_hydro_rw_derivs [Cog6.L0.temperature_hasDerivAt_t p r t, Cog6.L0.velocity_hasDerivAt_r p r t,
+    Cog6.L0.temperature_hasDerivAt_r p r t]
   simp only [epv_deriv, epv_leaf]
   have hg : ((p.geometry - 1) + 3) / ((p.geometry - 1) + 1) - 1 = 2 / ((p.geometry - 1) + 1) := by
     field_simp
     ring
   rw [hg]
-  have hx' := hx.ne'
+  epv_hydro_rpow_pos
   field_simp
   ring
 
